@@ -45,7 +45,7 @@ def run(eng, tier):
                   ('increment-multiple-of-10^precision', ('val', EQ(I(0), REM(m('size_increment'), POW10(m('price_precision')))), True))]
         for name, f in guards:
             pos = p.pos(f)
-            eng.ob(pos is not None and pos < first, PROP, 'guard', name, 'a configuration is stored on a path that does not establish %s: %s' % (name, fact_key(f)), detail=p.describe(20), sample={'rule': 'guard', 'condition': name})
+            eng.ob(pos is not None and pos < first, PROP, 'guard', name, 'a configuration is stored on a path that does not establish %s: %s' % (name, fact_key(f)), where=p, detail=p.describe(20), sample={'rule': 'guard', 'condition': name})
         val = cs[0]['val']
         eng.ob(val[0] == 'adt', PROP, 'record', 'built', 'stored configuration is not built field by field')
         if val[0] != 'adt': continue
@@ -58,7 +58,7 @@ def run(eng, tier):
                    sample={'rule': 'record', 'field': fld, 'value': K(d.get(fld))[:120]})
         for side in ('ask', 'bid'):
             want, extra = fee_expect(p, side)
-            eng.ob(want is not None, PROP, 'guard', side + ':fee-pair', 'a half-supplied %s fee pair is accepted' % side, detail=p.describe(12))
+            eng.ob(want is not None, PROP, 'guard', side + ':fee-pair', 'a half-supplied %s fee pair is accepted' % side, where=p, detail=p.describe(12))
             if want is None: continue
             got = d.get(side + '_fee_info')
             eng.ob(got is not None and canon(got) == canon(want), PROP, 'record', side + '_fee_info', 'stored %s fee is %s, expected %s' % (side, K(got)[:160] if got else None, K(want)[:160]), where=cs[0]['site'], detail=p.describe(20))
@@ -80,7 +80,7 @@ def run(eng, tier):
             ga = dict(price_guards('price', v))['price-within-precision']
             gb = ('val', EQ(I(0), REM(M(v, 'size'), F(CFG, 'size_increment'))), True)
             eng.ob(p.pos(ga) is not None and p.pos(gb) is not None, PROP, 'L-K-premises', v,
-                   '%s admits an order without testing price precision and lot multiple against the stored price_precision / size_increment (the integrality consequence of instantiation would not follow)' % v, detail=p.describe(12))
+                   '%s admits an order without testing price precision and lot multiple against the stored price_precision / size_increment (the integrality consequence of instantiation would not follow)' % v, where=p, detail=p.describe(12))
     eng.ob(nlk > 0, PROP, 'floor-ok-path', 'L-K', 'no admission path found for the L-K premises')
     # converse
     refs = Refusals(eng, 'instantiate')
